@@ -12,4 +12,4 @@ ASSUMPTIONS = [
 
 
 def run(ck):
-    mb_common.run_mb(ck, {"retained", "replay", "cap", "live_copy"}, box_clauses={"retained"})
+    mb_common.run_mb(ck, {"retained", "replay", "cap", "live_copy"}, box_clauses={"retained"}, conc={"conc_retained"})
